@@ -55,6 +55,11 @@ def check(ctx):
                 qusers.add(body.path)
     ctx.check(qusers == {R.path}, "C11.queue", "postponed-queue:used-only-by-runner", "%s:%d" % (R.file, R.line),
               "only the runner touches the postponed queue", "the postponed queue is accessed in %s" % sorted(qusers - {R.path}))
+    import writers
+    nwr = writers.check(ctx, "C11.queue", ["CobwebCommandQueue", "SystemCommandStorage"])
+    ctx.notes.append("who-writes table: %d queue / storage fields with pinned writers checked" % nwr)
+    nwr2 = core.adopt(ctx, c03, lambda o: o["rule"] == "C03.h", "C11.prepared")
+    ctx.notes.append("C11.prepared adopts %d who-writes obligations of the trackers (C03.h)" % nwr2)
     # ---- pending metadata lists ----
     n = core.adopt(ctx, c03, lambda o: o["rule"] == "C03.a", "C11.prepared")
     n += core.adopt(ctx, c02, lambda o: o["rule"] == "C02.a" and any(k in o["key"] for k in ("single-disposition", "dispositions=", "setup-runs-before-callback", "postpone-carries")), "C11.prepared")
